@@ -184,3 +184,31 @@ Definition C06_post_ok (pre : list (Z * Z)) (rx tx64 : Z) (post : option (list (
 Definition C06_handle_full_ok (pre : list (Z * Z)) (q : request) (rxt now : Z)
   (org rx tx : Z) (rxt' txt' : Z) (post : option (list (Z * Z))) : bool :=
   C06_handle_ok pre q rxt now org rx tx rxt' txt' && C06_rxt_ok pre rxt rxt' && C06_post_ok pre rx (to64 txt') post.
+
+(* ---- C06 across the NTP era rollover (kind tss.era) ----
+   A Time64 wraps every 2^32 s (2036-02-07 06:28:16 UTC): "later" between two stamps that are
+   less than 68 years apart is the sign of their difference modulo 2^64.  The clauses are those of
+   C06_handle_ok / C06_update_ok with this order on stamps and the order of the times themselves
+   wherever the observation has them.  (The ranking of clients by recency is declared out of scope
+   across the wrap; "transmit later than receive" and "the kernel transmit stamp is what is
+   recorded" are not.) *)
+Definition t64_later (a b : Z) : bool :=   (* b is later than a *)
+  let d := (b - a) mod 18446744073709551616 in (0 <? d) && (d <? 9223372036854775808).
+
+Definition pairs_ordered_era (l : list (Z * Z)) : bool := forallb (fun e => t64_later (fst e) (snd e)) l.
+
+Definition C06_handle_ok_era (pre : list (Z * Z)) (q : request) (rxt now : Z)
+  (org rx tx : Z) (rxt' txt' : Z) : bool :=
+  let inter := negb (q_rx q =? q_tx q) && (org =? q_rx q) in
+  (rx =? to64 rxt') && (rxt <=? rxt') &&
+  negb (has_first rx pre) &&
+  Bool.eqb inter (negb (q_rx q =? q_tx q) && has_first (q_org q) pre) &&
+  (if inter
+   then existsb (fun e => (fst e =? q_org q) && (snd e =? tx) && t64_later (fst e) (snd e)) pre
+   else (org =? q_tx q) && (tx =? to64 txt') && (rxt' <? txt') && (if rxt <? now then now <=? txt' else true)).
+
+(* the report: txt is the transmit time given (the kernel's), txt' the one handed back.  A given time
+   later than the receive time is kept as it is - that is the kernel transmit stamp, and it is what
+   goes on record - otherwise the time handed back is receive time + 1 ns *)
+Definition C06_update_given_ok (rxt txt txt' : Z) : bool :=
+  if rxt <? txt then txt' =? txt else txt' =? rxt + 1.
